@@ -6,7 +6,7 @@ import ast
 
 from checks.c03 import judge_trace
 from sa.cfg import CFG, walk_shallow
-from sa.common import applicable_cells, fn_construct, terminal_statuses, trace_sig
+from sa.common import at_least_one, applicable_cells, fn_construct, terminal_statuses, trace_sig
 from sa.model import AnalysisError, load_program
 from sa.protocol import SUSPEND_FQ, ProtocolModel, is_suspend, is_timed_suspend, wrapper_traces
 from sa.report import Check, main
@@ -59,6 +59,41 @@ def build() -> Check:
             ck.ob("R1.record-before-suspend", f"{ci.module.relpath.split('aws_durable_execution_sdk_python/')[-1]}:{ci.name}", not bad,
                   (bad[0][0] + ": " + trace_sig(bad[0][1])) if bad else "", cell=st)
     ck.floor("suspending_paths", n_susp, 8)
+    # a branch that parks "until now" is resubmitted at once by the resume timer, refreshes, finds the same state and parks "until now" again: inside a
+    # map/parallel it never looks parked to its siblings and the invocation polls the backend instead of answering PENDING. A suspension raised
+    # by an operation that waits for an external event (invoke, callback) or for its own delay must lie in the future on every path, or be indefinite.
+    from sa.values import Sym as _Sym, Const as _Const
+    n_timed = 0
+    dur = prog.cls("config", "Duration")
+    pi_ = dur.methods.get("__post_init__")
+    dur_nonneg = pi_ is not None and any(isinstance(n_, ast.If) and ast.unparse(n_.test).replace(" ", "") == "self.seconds<0"
+                                         and any(isinstance(x_, ast.Raise) for x_ in ast.walk(n_)) for n_ in ast.walk(pi_.node))
+    for name, ci, ot, st in applicable_cells(pm):
+        if st in term or ot not in ("CHAINED_INVOKE", "CALLBACK"):
+            continue
+        badn = []
+        for t in pm.run_cell(ci, st, faults=False):
+            if t.outcome != "raise" or not (t.exc_class() or "").endswith("TimedSuspendExecution"):
+                continue
+            n_timed += 1
+            ts_ = getattr(t.value, "fields", {}).get("scheduled_timestamp")
+            delay = None
+            if isinstance(ts_, _Sym) and ts_.parts and ts_.parts[0] == "BINOP" and "time.time()" in ts_.parts[2].key():
+                delay = ts_.parts[3]
+            d_ = dict(t.pc)
+            # Duration rejects negative values in __post_init__ (confirmed below): `<duration>.seconds < 0` is an infeasible path
+            if dur_nonneg and any(k.endswith(".seconds < 0") and v is True for k, v in t.pc):
+                n_timed -= 1
+                continue
+            positive = delay is not None and (at_least_one(delay, t.pc) or d_.get(f"truthy({delay.key()})") is True or d_.get(f"{delay.key()} > 0") is True)
+            if not positive:
+                badn.append((f"an outstanding {ot.lower().replace('_', ' ')} parks the branch until {ts_.key() if ts_ is not None else '?'} on a path that has not established a "
+                             "positive delay (the default timeout 0 means 'no timeout'): the branch is resumed at once, again and again", t))
+        if badn:
+            ck.ob("R1.timed-suspension-lies-in-the-future", f"{ci.module.relpath.split('aws_durable_execution_sdk_python/')[-1]}:{ci.name}", False,
+                  badn[0][0] + " | " + "; ".join(f"{k}->{v}" for k, v in badn[0][1].pc), cell=st)
+        else:
+            ck.ob("R1.timed-suspension-lies-in-the-future", f"{ci.module.relpath.split('aws_durable_execution_sdk_python/')[-1]}:{ci.name}", True, "", cell=st)
 
     # R2 suspend decision --------------------------------------------------------------------------
     cex = prog.cls("concurrency.executor", "ConcurrentExecutor")
